@@ -342,6 +342,12 @@ def worldLine (st : WState) (line : String) : WState × List String :=
             | _, _ => (st, o1)
         -- 4. stand-alone event replay (C12): insertions and removals replayed over the (empty) membership at
         --    registration must reproduce the mask the implementation itself reports
+        let isProbe4 := match op with
+          | .get .. | .has .. | .count _ | .isEmpty _ | .mask _ | .slice _ | .events _
+          | .ent (.alive _) | .ent (.walive _) | .ent .ejoin => true
+          | _ => false
+        -- a mask reported before a mutating op says nothing about the membership after it
+        let st := if isProbe4 then st else { st with evMask := {} }
         let (st, out4) :=
           if st.evDead then (st, []) else
           match op, ires with
@@ -350,7 +356,9 @@ def worldLine (st : WState) (line : String) : WState × List String :=
           | .dropWorld, _ => ({ st with evDead := true }, [])
           | .mask k, .ids l => if nestedTag.isSome then (st, []) else ({ st with evMask := st.evMask.insert k l }, [])
           | .events k, .events evs =>
-            if nestedTag.isSome || st.evOff.contains k || k < 6 then (st, []) else   -- kinds 6…11 are the tracking wrappers
+            if st.evOff.contains k || k < 6 then (st, []) else   -- kinds 6…11 are the tracking wrappers
+            -- (a read inside a lazily executed script drains the same reader: its events are replayed too, but the mask
+            --  comparison is made at top level only)
             let mem0 := st.evMember.getD k []
             let step := evs.foldl (fun (acc : List Nat × Option String) ev =>
               match acc.2 with
@@ -368,7 +376,7 @@ def worldLine (st : WState) (line : String) : WState × List String :=
                [s!"MON C12 case={st.caseId} line={st.lineNo} C12 the event stream contains {why} op=[{l}] impl=[{r}]"])
             | (mem, none) =>
               let st := { st with evMember := st.evMember.insert k mem, evChecks := st.evChecks + 1 }
-              match st.evMask.get? k with
+              match (if nestedTag.isSome then none else st.evMask.get? k) with
               | none => (st, [])
               | some ids =>
                 let st := { st with evMask := st.evMask.erase k }
